@@ -81,17 +81,36 @@ func (s *srvState) threadOf(m refcodec.Msg) int {
 		var id int
 		fmt.Sscanf(m.S("name"), "u%d", &id)
 		return (id - 1) / 16
+	case refcodec.Txattrwalk:
+		var id int
+		fmt.Sscanf(m.S("name"), "user.e%d", &id)
+		t := (id - 1) / 16
+		s.fidOwner[uint32(m.U("newfid"))] = t
+		return t
 	}
 	return -1
 }
 
 func (s *srvState) canSend() bool {
 	for t := range s.calls {
-		if s.sent[t] == s.answered[t] && s.sent[t] < len(s.calls[t]) {
+		if s.sent[t] == s.answered[t] && s.sent[t] < nreq(s.calls[t]) {
 			return true
 		}
 	}
 	return false
+}
+
+// nreq is the number of requests a client goroutine issues for its calls
+// (GetXattr of an empty value is Txattrwalk + Tclunk).
+func nreq(calls []string) int {
+	n := 0
+	for _, c := range calls {
+		n++
+		if c == "getxattr-empty" {
+			n++
+		}
+	}
+	return n
 }
 
 func (s *srvState) fail(format string, a ...interface{}) {
@@ -124,9 +143,9 @@ func (s *srvState) onRequest(m refcodec.Msg) {
 		}
 	}
 	switch m.Type {
-	case refcodec.Twalk, refcodec.Tattach:
+	case refcodec.Twalk, refcodec.Tattach, refcodec.Txattrwalk:
 		nf := uint32(0)
-		if m.Type == refcodec.Twalk {
+		if m.Type == refcodec.Twalk || m.Type == refcodec.Txattrwalk {
 			nf = uint32(m.U("newfid"))
 		} else {
 			nf = uint32(m.U("fid"))
@@ -175,6 +194,12 @@ func (s *srvState) reply(i int) {
 	case refcodec.Tattach:
 		r = refcodec.New(refcodec.Rattach, m.Tag, uint8(0x80), uint32(0), uint64(1))
 		nf := uint32(m.U("fid"))
+		delete(s.binding, nf)
+		s.bound[nf] = true
+	case refcodec.Txattrwalk:
+		// an empty attribute value: the new fid IS bound by this reply
+		r = refcodec.New(refcodec.Rxattrwalk, m.Tag, uint64(0))
+		nf := uint32(m.U("newfid"))
 		delete(s.binding, nf)
 		s.bound[nf] = true
 	case refcodec.Tunlinkat:
@@ -338,6 +363,15 @@ func scenario(p params) *fw.Scenario {
 						} else {
 							*out = append(*out, "getattr:ok")
 						}
+					case "getxattr-empty":
+						v, err := root.GetXattr(fmt.Sprintf("user.e%d", id))
+						if err != nil {
+							*out = append(*out, "getxattr-empty:err")
+						} else if len(v) != 0 {
+							*out = append(*out, "getxattr-empty:WRONG(value)")
+						} else {
+							*out = append(*out, "getxattr-empty:ok")
+						}
 					case "unlink-err":
 						err := root.UnlinkAt(fmt.Sprintf("u%d", id), 0)
 						var en linux.Errno
@@ -496,7 +530,7 @@ func generalize(s string) string {
 }
 
 func run(ctx *fw.Ctx, rep *fw.Report) {
-	rep.Rule = "(i) 2-3 goroutines x 1-2 calls (GetAttr, Walk, Close, Remove, and UnlinkAt answered with a request-unique errno) on one real p9.Client against a scripted server whose actions (read the next request / answer any pending request) are a free data choice, i.e. every reply order incl. answering before the next request is read; all thread interleavings with at most 1 (quick) / 2 (thorough) preemptions, without reduction (the client's hand-off logic alone has more than 10^5 Mazurkiewicz traces for two calls, so unbounded DPOR does not terminate in budget); (ii) the same sessions with one fault (close, half frame then close, garbage frame, unknown tag, wrong reply type, size field 3) in place of the k-th reply for every k; (iv) two-call sessions broken by a close / half frame / garbage frame, followed by two calls of a SECOND client of the same process on its own healthy connection, with recycling pools (handing out the most recently / the least recently put object: both policies): the second client's calls must succeed; (iii) allocator: explicit-state BFS over all Get/Put sequences of the tag/fid allocator and 2-thread schedules; oracle at the server: outstanding tags pairwise distinct and never NOTAG, a new fid is never one the server has bound or is binding (fault-free sessions), at the callers: own token returned, errors only after a fault, no caller blocked at the end (deadlock detection); distinct = distinct (results, reply order) outcomes"
+	rep.Rule = "(i) 2-3 goroutines x 1-2 calls (GetAttr, Walk, Close, Remove, GetXattr of an empty value, and UnlinkAt answered with a request-unique errno) on one real p9.Client against a scripted server whose actions (read the next request / answer any pending request) are a free data choice, i.e. every reply order incl. answering before the next request is read; all thread interleavings with at most 1 (quick) / 2 (thorough) preemptions, without reduction (the client's hand-off logic alone has more than 10^5 Mazurkiewicz traces for two calls, so unbounded DPOR does not terminate in budget); (ii) the same sessions with one fault (close, half frame then close, garbage frame, unknown tag, wrong reply type, size field 3) in place of the k-th reply for every k; (iv) two-call sessions broken by a close / half frame / garbage frame, followed by two calls of a SECOND client of the same process on its own healthy connection, with recycling pools (handing out the most recently / the least recently put object: both policies): the second client's calls must succeed; (iii) allocator: explicit-state BFS over all Get/Put sequences of the tag/fid allocator and 2-thread schedules; oracle at the server: outstanding tags pairwise distinct and never NOTAG, a new fid is never one the server has bound or is binding (fault-free sessions), at the callers: own token returned, errors only after a fault, no caller blocked at the end (deadlock detection); distinct = distinct (results, reply order) outcomes"
 	rep.Assumptions = append(rep.Assumptions, "independence classes of DESIGN §2.2", "fid freshness is asserted in sessions without protocol faults only (DESIGN §4.0)", "GC finalizers of client files are off (DESIGN §6)")
 	shapes := [][][]string{
 		{{"getattr"}, {"getattr"}},
@@ -504,9 +538,10 @@ func run(ctx *fw.Ctx, rep *fw.Report) {
 		{{"walk", "close"}, {"walk"}},
 		{{"unlink-err"}, {"unlink-err"}},
 		{{"unlink-err"}, {"getattr"}},
+		{{"getxattr-empty", "walk"}},
 	}
 	if !ctx.Quick() {
-		shapes = append(shapes, [][]string{{"walk", "remove"}, {"walk"}}, [][]string{{"walk", "close"}, {"getattr"}}, [][]string{{"walk", "close"}, {"walk", "close"}}, [][]string{{"getattr", "getattr"}, {"getattr"}},
+		shapes = append(shapes, [][]string{{"getxattr-empty", "walk"}, {"getattr"}}, [][]string{{"walk", "remove"}, {"walk"}}, [][]string{{"walk", "close"}, {"getattr"}}, [][]string{{"walk", "close"}, {"walk", "close"}}, [][]string{{"getattr", "getattr"}, {"getattr"}},
 			[][]string{{"getattr"}, {"getattr"}, {"getattr"}}, [][]string{{"walk", "close"}, {"walk"}, {"getattr"}})
 	}
 	var scs []*fw.Scenario
